@@ -553,6 +553,8 @@ def run(rec, F, S):
                         cons = ladd(cons, ef)
                 else:
                     # run of pops[0] repeated r times
+                    if not pops or not pops[0]["variants"]:
+                        raise Unknown("run of an instruction the pattern does not name")
                     nm = list(pops[0]["variants"])[0]
                     ef = T.effect.get(nm)
                     if ef is None or [k for k in ef if k != "1"]:
